@@ -48,9 +48,21 @@ Definition lin_parts_tie (file : list N) : option (list (N * N * N) * N) :=
                                                   | _ => []
                                                   end
                                       | None => [] end) pages in
-      let root_sets := map (fun kv => (fst kv, match snd kv with PNull => [] | v => cont (af_closure fuel objs (af_refs v) []) end)) catd in
+      (* updateObjectMaps starts at the key's value as "top": a value that is itself a page object (a page that is not in
+         the page tree) is entered like a page *)
+      let top_closure := fun v =>
+        match v with
+        | PRef n _ => match af_find objs n with
+                      | Some o => if af_has_type afn_Page (so_val o)
+                                  then af_closure fuel objs (af_refs_skip [afn_Parent; afn_Thumb] (so_val o)) [n]
+                                  else af_closure fuel objs (af_refs v) []
+                      | None => []
+                      end
+        | _ => af_closure fuel objs (af_refs v) []
+        end in
+      let root_sets := map (fun kv => (fst kv, match snd kv with PNull => [] | v => cont (top_closure v) end)) catd in
       let trailer_sets := flat_map (fun kv => if beq (fst kv) n_Root then [] else
-                                              match snd kv with PNull => [] | v => [(fst kv, cont (af_closure fuel objs (af_refs v) []))] end)
+                                              match snd kv with PNull => [] | v => [(fst kv, cont (top_closure v))] end)
                                    (sf_trailer sf) in
       let use_outl := match dict_get catd afn_PageMode, dict_get catd afn_Outlines with
                       | Some (PName m), Some _ => beq m afn_UseOutlines
